@@ -182,13 +182,14 @@ fn rustc_cmd(env: &RustcEnv, dir: &Path, main: &str, out: &str, metadata_only: b
     c
 }
 
-fn write_main(dir: &Path, name: &str, units: &[usize], standalone_lib: bool) {
+fn write_main(dir: &Path, name: &str, units: &[usize], standalone_lib: bool, extra: &str) {
     let mut m = String::new();
     if standalone_lib {
         m.push_str(&PRELUDE.replace("fn main()", "pub fn _main()"));
     } else {
         m.push_str(PRELUDE);
     }
+    m.push_str(extra);
     for &u in units {
         m.push_str(&format!("pub mod g{u} {{ use super::*; include!(\"g{u}.rs\"); include!(\"glue{u}.rs\"); }}\n"));
     }
@@ -202,7 +203,7 @@ fn write_main(dir: &Path, name: &str, units: &[usize], standalone_lib: bool) {
 
 /// Compile the units. If the batch fails, each unit is checked alone (metadata only) to find
 /// the offenders, and the batch is recompiled without them.
-pub fn build(env: &RustcEnv, dir: &Path, units: &[Unit]) -> Result<Built, String> {
+pub fn build(env: &RustcEnv, dir: &Path, units: &[Unit], extra: &str) -> Result<Built, String> {
     let _ = std::fs::create_dir_all(dir);
     for (i, u) in units.iter().enumerate() {
         // the first two lines of a generated file are `//` comments; inner attributes of the
@@ -213,7 +214,7 @@ pub fn build(env: &RustcEnv, dir: &Path, units: &[Unit]) -> Result<Built, String
     }
     let mut unit_errors: Vec<Option<String>> = vec![None; units.len()];
     let all: Vec<usize> = (0..units.len()).collect();
-    write_main(dir, "main.rs", &all, false);
+    write_main(dir, "main.rs", &all, false, extra);
     let o = rustc_cmd(env, dir, "main.rs", "prog", false).output().map_err(|e| format!("rustc: {}", e))?;
     if o.status.success() {
         return Ok(Built { dir: dir.to_path_buf(), bin: Some(dir.join("prog")), unit_errors });
@@ -221,7 +222,7 @@ pub fn build(env: &RustcEnv, dir: &Path, units: &[Unit]) -> Result<Built, String
     // find offenders
     let mut good = vec![];
     for i in 0..units.len() {
-        write_main(dir, "one.rs", &[i], true);
+        write_main(dir, "one.rs", &[i], true, extra);
         let o = rustc_cmd(env, dir, "one.rs", "one.rmeta", true).output().map_err(|e| format!("rustc: {}", e))?;
         if o.status.success() {
             good.push(i);
@@ -237,7 +238,7 @@ pub fn build(env: &RustcEnv, dir: &Path, units: &[Unit]) -> Result<Built, String
     if good.is_empty() {
         return Ok(Built { dir: dir.to_path_buf(), bin: None, unit_errors });
     }
-    write_main(dir, "main.rs", &good, false);
+    write_main(dir, "main.rs", &good, false, extra);
     let o = rustc_cmd(env, dir, "main.rs", "prog", false).output().map_err(|e| format!("rustc: {}", e))?;
     if !o.status.success() {
         return Err(format!("second batch failed: {}", String::from_utf8_lossy(&o.stderr).lines().take(8).collect::<Vec<_>>().join(" / ")));
